@@ -80,17 +80,42 @@ def map_insert_m(ctx, args, st):
     return ret(st, NONE if old is None else Some(old))
 
 
+def key_lookup(ctx, st, mv, v):
+    """generator (st, index of the entry or None); a symbolic key string is compared with every stored key (fork per stored key)"""
+    s = str_of(st, v)
+    c = s.concrete()
+    if c is not None:
+        yield st, mv.index(c); return
+    if s.facts is not None: raise Unsupported('map access with an abstract key')
+    import z3
+    from .strings import ch_expr
+    def go(s_, i):
+        if i == len(mv.keys):
+            yield s_, None; return
+        k = mv.keys[i]
+        if not isinstance(k, str) or len(k) != len(s.chars):
+            yield from go(s_, i + 1); return
+        eq = z3.And(*[ch_expr(x) == ord(ch) for x, ch in zip(s.chars, k)]) if k else z3.BoolVal(True)
+        for s2, hit in ctx.ex.fork_bool(s_, eq):
+            if hit: yield s2, i
+            else: yield from go(s2, i + 1)
+    yield from go(st, 0)
+
+
 @model(_m(r'contains_key(?:::<.*>)?$'))
 def map_contains_key(ctx, args, st):
     mv = st.deref(map_ref(st, args[0]))
-    return ret(st, Bool(key_of(st, args[1]) in mv.keys))
+    def g():
+        for s2, i in key_lookup(ctx, st, mv, args[1]): yield s2, 'ret', Bool(i is not None)
+    return g()
 
 
 @model(_m(r'get(?:::<.*>)?$'))
 def map_get(ctx, args, st):
     r = map_ref(st, args[0]); mv = st.deref(r)
-    i = mv.index(key_of(st, args[1]))
-    return ret(st, NONE if i is None else Some(Ref(r.alloc, r.path + (i,), False)))
+    def g():
+        for s2, i in key_lookup(ctx, st, mv, args[1]): yield s2, 'ret', (NONE if i is None else Some(Ref(r.alloc, r.path + (i,), False)))
+    return g()
 
 
 @model(_m(r'get_mut(?:::<.*>)?$'))
